@@ -418,9 +418,156 @@ def h_pipeline(I, fi):
             "the graph is relabelled, cleaned with the data and returned", kind="post")
 
 
+PT = "phyclone.process_trace.process_trace"
+
+
+def h_consensus_labels(I, fi):
+    """get_tree_from_consensus_graph: the label of every data point listed by a consensus node is that node, every other data point is
+    labelled with the outlier node, top-level consensus nodes are attached to the root, and the Tree is built from exactly that."""
+    P = I.P
+    n = alg.sym("n_data", "Int")
+    k = alg.sym("n_nodes", "Int")
+    P.assume(z3.And(P.z(n) >= 1, P.z(k) >= 0))
+    covered = z3.Function("covered", z3.IntSort(), z3.BoolSort())
+    log = {"stores": [], "asked": [], "edges": [], "update": 0, "fdn": []}
+    outl, rootn = alg.sym("outlier_node_name", "Int"), alg.sym("root_node_name", "Int")
+
+    class Labels(Model):
+        def setitem(self, I_, key, v):
+            log["stores"].append((I_.to_num(key), v))
+
+        def contains(self, I_, key):
+            log["asked"].append(I_.to_num(key))
+            return SBool(covered(P.z(I_.to_num(key))))
+
+    labels = Labels()
+
+    class DP(Model):
+        def __init__(self, i):
+            self.i = I.to_num(i)
+
+        def a_idx(self, I_):
+            return alg.raw_app("idx_of", self.i, sort="Int")
+
+        def a_grid_size(self, I_):
+            return alg.sym("G", "Int")
+
+    data = SymSeq("data", n, lambda i: DP(i))
+
+    def node_id(t):
+        return alg.raw_app("node", I.to_num(t), sort="Int")
+
+    class NodeAttrs(Model):
+        def __init__(self, nd):
+            self.nd = nd
+
+        def getitem(self, I_, key):
+            if key != "idxs":
+                raise Unsupported("node attribute %r" % (key,))
+            cnt = alg.raw_app("n_own", self.nd, sort="Int")
+            I_.P.assume(I_.P.z(cnt) >= 0)
+            return SymSeq("idxs[%s]" % self.nd.key(), cnt, lambda t: alg.raw_app("own", self.nd, I_.to_num(t), sort="Int"))
+
+    class NodesView(SymSeq):
+        def getitem(self, I_, key):
+            return NodeAttrs(I_.to_num(key))
+
+    class Graph(Model):
+        def __init__(self, is_copy=False):
+            self.is_copy = is_copy
+
+        def a_nodes(self, I_):
+            return NodesView("graph.nodes", k, node_id)
+
+        def m_copy(self, I_):
+            return Graph(True)
+
+        def m_predecessors(self, I_, nd):
+            cnt = alg.raw_app("n_pred", I_.to_num(nd), sort="Int")
+            I_.P.assume(I_.P.z(cnt) >= 0)
+            return SymSeq("pred", cnt, lambda t: alg.raw_app("pred", I_.to_num(nd), I_.to_num(t), sort="Int"))
+
+        def m_add_edge(self, I_, a, b):
+            log["edges"].append((self, a, b))
+
+    class TreeM(Model):
+        def a_outlier_node_name(self, I_):
+            return outl
+
+        def a_root_node_name(self, I_):
+            return rootn
+
+        def m_update(self, I_):
+            log["update"] += 1
+
+    class TreeCls(Model):
+        def call(self, I_, args, kwargs):
+            return TreeM()
+
+    built = TreeM()
+
+    class Nx(Model):
+        def m_to_dict_of_dicts(self, I_, g):
+            return ("dict-of-dicts", g)
+
+    I.registry.globals_override["nx"] = Nx()
+    I.registry.globals_override["Tree"] = lambda I_, *a: TreeM()
+    I.registry.empty_dict_model = lambda I_: labels
+
+    def fdn(I_, args, kwargs, node):
+        log["fdn"].append(args)
+        return built
+
+    I.registry.call_contracts[PT + ".from_dict_nx"] = fdn
+    I.registry.generic_loops.add(fi.qualname)
+    I.registry.generic_store_ok = {"labels"}
+    g0 = Graph()
+    res = I.call_function(fi, [data, g0], {}, force_inline=True)
+    gens = P.ghost.get("generic_indices", [])
+    dsl.cover(I, "labels.ran")
+    P.check("clabels.four-loops", len(gens) == 4, "nodes x own points, input data, nodes again (arbitrary element of each)", kind="post")
+    if len(gens) != 4:
+        return
+    k1, t, j, k3 = gens
+    nd = node_id(k1)
+    own = alg.raw_app("own", nd, t, sort="Int")
+    s0 = log["stores"][0] if log["stores"] else None
+    P.check("clabels.own-points-labelled-with-their-node", s0 is not None and (s0[0] - own).is_zero() and isinstance(s0[1], Num) and (s0[1] - nd).is_zero(),
+            "every data point listed by a consensus node is labelled with that node", kind="post")
+    xidx = alg.raw_app("idx_of", j, sort="Int")
+    P.check("clabels.lookup-by-own-idx", len(log["asked"]) == 1 and (log["asked"][0] - xidx).is_zero(), "input point x is looked up by its own idx", kind="post")
+    rest = log["stores"][1:]
+    if rest:
+        P.check("clabels.uncovered-point-is-outlier", len(rest) == 1 and (rest[0][0] - xidx).is_zero() and isinstance(rest[0][1], Num) and (rest[0][1] - outl).is_zero() and z3.Not(covered(P.z(xidx))),
+                "a data point not listed by any consensus node is labelled with the outlier node (clone id -1)", kind="post")
+        dsl.cover(I, "clabels.fill-in")
+    else:
+        P.check("clabels.covered-point-keeps-its-node", covered(P.z(xidx)), "a data point listed by a consensus node keeps that label", kind="post")
+        dsl.cover(I, "clabels.no-fill-in")
+    nd3 = node_id(k3)
+    npred = alg.raw_app("n_pred", nd3, sort="Int")
+    if log["edges"]:
+        g, a, b = log["edges"][0]
+        P.check("clabels.top-level-node-under-root", len(log["edges"]) == 1 and g.is_copy and isinstance(a, Num) and (a - rootn).is_zero() and (I.to_num(b) - nd3).is_zero() and P.z(npred) == 0,
+                "a consensus node without a parent is attached to the root, on a copy of the graph", kind="post")
+        dsl.cover(I, "clabels.attach")
+    else:
+        P.check("clabels.nested-node-not-reattached", P.z(npred) >= 1, "a consensus node with a parent is left where it is", kind="post")
+        dsl.cover(I, "clabels.no-attach")
+    ok = len(log["fdn"]) == 1 and log["fdn"][0][0] is data and isinstance(log["fdn"][0][1], dict) and log["fdn"][0][1].get("labels") is labels \
+        and isinstance(log["fdn"][0][1].get("graph"), tuple) and log["fdn"][0][1]["graph"][1].is_copy
+    P.check("clabels.tree-built-from-these-labels", ok and res is built and log["update"] == 1, "the Tree is built from the data, the rooted copy of the graph and exactly these labels, and updated", kind="post")
+
+
+CLABEL_COVERS = ["labels.ran", "clabels.fill-in", "clabels.no-fill-in", "clabels.attach", "clabels.no-attach"]
+
+
+
+
 def verify_all(ctx, repo, prop="C16"):
     dsl.verify(ctx, repo, dsl.Registry(), prop, CONS + ".key_above_threshold", h_key_above_threshold, expect_covers=["threshold.generic-item"])
     dsl.verify(ctx, repo, dsl.Registry(), prop, CONS + ".clade_probabilities", h_clade_probabilities, expect_covers=SUPPORT_COVERS)
     dsl.verify(ctx, repo, dsl.Registry(), prop, CONS + ".find_smallest_superset", h_smallest_superset, expect_covers=SUPERSET_COVERS)
     dsl.verify(ctx, repo, dsl.Registry(), prop, CONS + ".consensus", h_consensus, expect_covers=["consensus.generic-clade"])
     dsl.verify(ctx, repo, dsl.Registry(), prop, CONS + ".get_consensus_tree", h_pipeline, expect_covers=["pipeline.ran"])
+    dsl.verify(ctx, repo, dsl.Registry(), prop, PT + ".get_tree_from_consensus_graph", h_consensus_labels, expect_covers=CLABEL_COVERS)
